@@ -225,28 +225,18 @@ Section Cluster.
   Record proposal := { pr_store : N; pr_inc : N; pr_w : W; pr_id : N; pr_cmd : cmd; pr_term : N }.
 
   Record gstate := {
-    g_stores : list (N * (N * store cmd resp sm W));  (* store id -> (incarnation, state) *)
-    g_props : list proposal;                            (* every registered proposal, newest first *)
-    g_outs : list (W * call_out)                        (* what each call got before blocking, newest first *)
+    g_stores : N -> N * store cmd resp sm W;   (* store id -> (incarnation, state) *)
+    g_props : list proposal;                   (* every registered proposal, newest first *)
+    g_outs : list (W * call_out)               (* what each call got before blocking, newest first *)
   }.
-
-  Fixpoint gfind (s : N) (l : list (N * (N * store cmd resp sm W))) : option (N * store cmd resp sm W) :=
-    match l with
-    | [] => None
-    | (i, x) :: l' => if i =? s then Some x else gfind s l'
-    end.
-  Fixpoint gset (s : N) (x : N * store cmd resp sm W) (l : list (N * (N * store cmd resp sm W))) :=
-    match l with
-    | [] => [(s, x)]
-    | (i, y) :: l' => if i =? s then (i, x) :: l' else (i, y) :: gset s x l'
-    end.
+  Definition gset (s : N) (x : N * store cmd resp sm W) (f : N -> N * store cmd resp sm W) :=
+    fun i => if i =? s then x else f i.
 
   Variable init_sm : sm.
   (** [nid]: [next_id] (the code as it is) or [next_id_v0] (before the repair). *)
   Variable nid : N -> pipe W -> N * pipe W.
 
-  Definition get_store (g : gstate) (s : N) : N * store cmd resp sm W :=
-    match gfind s (g_stores g) with Some x => x | None => (0, store_init init_sm) end.
+  Definition get_store (g : gstate) (s : N) : N * store cmd resp sm W := g_stores g s.
 
   Definition gstep (g : gstate) (e : gevent) : gstate :=
     match e with
@@ -281,12 +271,11 @@ Section Cluster.
         {| g_stores := gset s (inc, st') (g_stores g); g_props := g_props g; g_outs := g_outs g |}
     end.
 
-  Definition ginit : gstate := {| g_stores := []; g_props := []; g_outs := [] |}.
+  Definition ginit : gstate := {| g_stores := fun _ => (0, store_init init_sm); g_props := []; g_outs := [] |}.
   Definition grun (tr : list gevent) : gstate := fold_left gstep tr ginit.
 
-  (** Every completion handed out so far, with the store. *)
-  Definition completions (g : gstate) : list (N * completion cmd resp W) :=
-    flat_map (fun x => map (fun k => (fst x, k)) (s_done (snd (snd x)))) (g_stores g).
+  (** Every completion handed out so far by store [s]. *)
+  Definition completions (g : gstate) (s : N) : list (completion cmd resp W) := s_done (snd (g_stores g s)).
 End Cluster.
 
 Arguments gevent : clear implicits.
